@@ -48,6 +48,8 @@ def parse_tree(parent: Optional[Feature], feature_node: Dict[str, Any]) -> Featu
     """Parse the tree structure and returns the root feature."""
     feature_name = feature_node['name']
     is_abstract = feature_node['abstract']
+    if isinstance(is_abstract, str):  # files written by previous versions
+        is_abstract = is_abstract.lower() == 'true'
     feature = Feature(name=feature_name, parent=parent, is_abstract=is_abstract)
 
     parse_attributes(feature, feature_node)
